@@ -426,6 +426,67 @@ def _task_joined_descriptors(_):
     return res
 
 
+def _task_auth_nested(_):
+    """the application's connectionAuthenticated hook talks to its peer
+    over an in-memory transport: the answer (a message X) is read while the
+    line that completed the handshake is still being handled.  With the
+    last handshake line cut anywhere, and with a message M behind it in the
+    same read: everything is delivered, in the order the bytes arrived (M
+    was there before X)"""
+    res = core.Result()
+    P = pool()
+    for role in ('server', 'client', 'client-unix'):
+        hs = SERVER_HS if role == 'server' else \
+            CLIENT_HS_UNIX if role == 'client-unix' else CLIENT_HS
+        for xi, mi in ((0, 1), (3, 4), (5, 2), (7, 8)):
+            X, sx = encode(P[xi], 700)
+            M_, sm = encode(P[mi], 701)
+            cases = [('cut', k, False) for k in range(1, len(hs))] + \
+                [('joined', 0, True)] + \
+                [('cut+joined', k, True)
+                 for k in (1, len(hs) // 2, len(hs) - 2, len(hs) - 1)]
+            for kind, k, joined in cases:
+                res.count('states')
+                res.count('transitions', 3)
+                res.count('evaluations')
+                res.count('traces')
+                res.count('nontrivial')
+                try:
+                    p, t = make_server() if role == 'server' else \
+                        make_client(role == 'client-unix')
+                    fired = []
+
+                    def on_auth(p=p, fired=fired, X=X):
+                        fired.append(1)
+                        p.auth_calls += 1
+                        p.dataReceived(X)
+                    p.connectionAuthenticated = on_auth
+                    tail = M_ if joined else b''
+                    if k:
+                        p.dataReceived(hs[:k])
+                        p.dataReceived(hs[k:] + tail)
+                    else:
+                        p.dataReceived(hs + tail)
+                    got = [m.serial for m in p.got]
+                    want = ([sm] if joined else []) + [sx]
+                    ok = got == want and fired == [1]
+                    what = 'delivered serials %r, expected %r (hook ran ' \
+                        '%d times)' % (got, want, len(fired))
+                except Exception as e:
+                    ok = False
+                    what = 'raised %r' % (e,)
+                if not ok:
+                    res.violation(
+                        '%s/%s/auth-nested/%s' % (PROP, role, kind),
+                        '%s: handshake cut at %d%s, the authentication hook '
+                        'reads one more message: %s'
+                        % (role, k, ', a message behind it in the same read'
+                           if joined else '', what), {'authnested': True},
+                        size=k)
+                    break
+    return res
+
+
 def _task_two_connections(task):
     """two connections in one process, each stream cut once, their reads
     interleaved in every order: a connection receives exactly its own
@@ -594,6 +655,7 @@ def run(ctx):
     ctx.map(_task_two_connections, [(q, i, n) for i in range(n)])
     ctx.map(_task_reentrant, [(q, i, n) for i in range(n)])
     ctx.map(_task_joined_descriptors, [0])
+    ctx.map(_task_auth_nested, [0])
     co = [(3000, False), (3000, True), (1200, False)]
     if not q:
         co += [(20000, False), (20000, True)]
@@ -603,6 +665,9 @@ def run(ctx):
 def replay(data):
     if 'fdjoin' in data:
         res = _task_joined_descriptors(0)
+        return [(s, v['what']) for s, v in res.violations.items()]
+    if 'authnested' in data:
+        res = _task_auth_nested(0)
         return [(s, v['what']) for s, v in res.violations.items()]
     if 'two' in data:
         res = _task_two_connections((True, 0, 1))
